@@ -1,7 +1,8 @@
 (* Extract/C18.v — extraction of the tx pool accounting model (ExtrOcamlBasic only). *)
 Require Extraction.
 Require Import ExtrOcamlBasic.
-From Verif Require Import Common.Util TxPool.Model.
+From Verif Require Import Common.Util TxPool.Model TxPool.ModelWash TxPool.ModelAdmission.
 Extraction Language OCaml.
 Extraction "../oracle/c18/model.ml"
-  empty_pool add remove_by_hash promote fill set_pricing holds_at aget sort_desc publish quota_of cost_of length.
+  empty_pool add remove_by_hash promote fill set_pricing holds_at aget sort_desc publish quota_of cost_of length
+  wash wash_error_cut evaluate adopt pool_static.
